@@ -686,3 +686,63 @@ func SynVP8L(r *RNG) ([]byte, string) {
 	}
 	return out, d
 }
+
+// SynVP8LCross writes a w×h stream (no deliberate defects) with a forced transform chain:
+// optionally subtract-green and/or a predictor transform, and always a cross-colour transform
+// with the given tile bits whose multipliers are drawn per tile, so that applying the multipliers
+// of a wrong tile row changes the pixels.  The main image uses literals from a moderately sized
+// set (non-zero green), short copies and cache hits.  Used by the GOMAXPROCS sweep to reach the
+// decoder's parallel inverse transforms (>= 100000 pixels) with tile sizes and chunk starts the
+// encoder does not produce.
+func SynVP8LCross(r *RNG, w, h, crossBits int, withSG bool, predBits int) ([]byte, string) {
+	g := &synGen{r: r, w: &bitW{}}
+	bw := g.w
+	bw.put(0x2f, 8)
+	bw.put(uint32(w-1), 14)
+	bw.put(uint32(h-1), 14)
+	bw.put(uint32(r.Intn(2)), 1)
+	bw.put(0, 3)
+	desc := ""
+	sub := func(tb int) (int, int) {
+		return (w + (1 << uint(tb)) - 1) >> uint(tb), (h + (1 << uint(tb)) - 1) >> uint(tb)
+	}
+	writeCross := func() {
+		bw.put(1, 1)
+		bw.put(1, 2)
+		bw.put(uint32(crossBits-2), 3)
+		sw, sh := sub(crossBits)
+		g.writeImageData(sw, sh, false, func() uint32 { return uint32(r.Next()) | 0x00210409 })
+		desc += "cross" + string(rune('0'+crossBits)) + "+"
+	}
+	writePred := func() {
+		bw.put(1, 1)
+		bw.put(0, 2)
+		bw.put(uint32(predBits-2), 3)
+		sw, sh := sub(predBits)
+		g.writeImageData(sw, sh, false, func() uint32 { return 0xff000000 | uint32(r.Intn(14))<<8 })
+		desc += "pred" + string(rune('0'+predBits)) + "+"
+	}
+	// the decoder undoes the transforms in reverse order of appearance; both orders of
+	// predictor / cross-colour are legal
+	crossFirst := r.Bool()
+	if crossFirst {
+		writeCross()
+	}
+	if predBits >= 2 {
+		writePred()
+	}
+	if !crossFirst {
+		writeCross()
+	}
+	if withSG {
+		bw.put(1, 1)
+		bw.put(2, 2)
+		desc += "sg+"
+	}
+	bw.put(0, 1)
+	base := uint32(r.Next())
+	g.writeImageData(w, h, true, func() uint32 {
+		return base&0xff000000 | uint32(r.Intn(16))<<20 | uint32(1+r.Intn(63))<<10 | uint32(r.Intn(32))<<1
+	})
+	return bw.b, desc[:len(desc)-1]
+}
